@@ -645,3 +645,9 @@ mod tests {
         }
     }
 }
+
+#[cfg(kani)]
+#[allow(semicolon_in_expressions_from_non_local_macros, unused)]
+mod verif_kani {
+    include!(concat!(env!("VERIF_HARNESS"), "/actix_web/types_payload.rs"));
+}
